@@ -140,4 +140,164 @@ theorem fNlGo_range (lo hi dflt : ℕ) (a : ℚ) :
 theorem fNl_range (x : ℚ) : 1 ≤ fNl fl x ∧ fNl fl x ≤ 59 :=
   fNlGo_range 1 59 _ _ _ (by decide +kernel)
 
+/-! ### the complete float-level model of `airborne_position` (cpr.rs l.225-307) -/
+
+section AsmDefs
+variable (fl : ℚ → ℚ)
+
+/-- body of `airborne_position` once the `match` has named the even and the odd frame — `Model.Cpr.globalCore`
+    (in the normal form `Proofs.Cpr.globalCore_eq`) with every value replaced by the f64 value and every
+    comparison made on the f64 values: the two `>= 270` wraps (inside `fLatE`, `fLatO`), the `[-90, 90]` test
+    (`-90.`, `90.` are binary64 values), `nl(lat_even) != nl(lat_odd)` through `fNl`, `latest == even_frame`,
+    `(p, c)`, `ni`, `m`, `r`, the longitude (`fLon0` with `n = fNl(lat)`) and its `>= 180` wrap.  `none` exactly
+    where the Rust code returns `None`.  (`fNl ≥ 1` — `fNl_range` — so the `u64` subtractions `nl(lat) - p`,
+    `nl(lat) - 1` inside `fLon0`/`fM` do not underflow: truncated = checked subtraction.) -/
+def fGlobalCore (e o l : Msg) : Option (ℚ × ℚ) :=
+  if (!(inLatRange (fLatE fl e o)) || !(inLatRange (fLatO fl e o))) = true then none
+  else if fNl fl (fLatE fl e o) ≠ fNl fl (fLatO fl e o) then none
+  else some (if l = e then fLatE fl e o else fLatO fl e o,
+    fWrap180 fl (fLon0 fl e o (fNl fl (if l = e then fLatE fl e o else fLatO fl e o))
+      (if l.parity = .even then 0 else 1) (if l.parity = .even then e.lon else o.lon)))
+
+/-- `pub fn airborne_position(oldest, latest) -> Option<Position>` in f64: the `match` on the two parities, as
+    `Model.Cpr.airbornePosition` -/
+def fAirbornePosition (oldest latest : Msg) : Option (ℚ × ℚ) :=
+  match oldest.parity, latest.parity with
+  | .even, .odd => fGlobalCore fl oldest latest latest
+  | .odd, .even => fGlobalCore fl latest oldest latest
+  | _, _ => none
+end AsmDefs
+
+theorem fAirbornePosition_eo (fl : ℚ → ℚ) (e o : Msg) (he : e.parity = .even) (ho : o.parity = .odd) :
+    fAirbornePosition fl e o = fGlobalCore fl e o o ∧ fAirbornePosition fl o e = fGlobalCore fl e o e := by
+  unfold fAirbornePosition
+  simp [he, ho]
+
+/-- **The margin hypothesis** at distance `δ`: the exact (rational-model) values stay farther than `δ` degrees from
+    every point where one of the comparisons that involve an INEXACT f64 value flips.  (`lat_even` is computed
+    exactly, so only its NL band needs a margin — against the rounding of the literals.)  Every clause is a
+    decidable statement about rationals computed from the four 17-bit fields. -/
+structure MarginAt (δ : ℚ) (e o : Msg) : Prop where
+  /-- `lat_even` is not within `δ` of a transition latitude of the NL table -/
+  latE_nl : nlFar δ (gLatE e o)
+  /-- nor is `lat_odd` -/
+  latO_nl : nlFar δ (gLatO e o)
+  /-- `lat_odd` before the wrap is not within `δ` of the `>= 270` wrap point -/
+  latO_270 : δ < |gLatO0 e o - 270|
+  /-- `lat_odd` is not within `δ` of `+90` … -/
+  latO_90 : δ < |gLatO e o - 90|
+  /-- … or of `-90` -/
+  latO_m90 : δ < |gLatO e o + 90|
+  /-- the longitude (before the wrap) is not within `δ` of the `>= 180` wrap point, latest = even … -/
+  lonE_180 : δ < |gLon0 e o (nl (gLatE e o)) 0 e.lon - 180|
+  /-- … and latest = odd -/
+  lonO_180 : δ < |gLon0 e o (nl (gLatO e o)) 1 o.lon - 180|
+
+/-- the margin of the assembled theorem: `δ = 10⁻⁹` degrees (0.1 mm on the ground) -/
+abbrev Margin (e o : Msg) : Prop := MarginAt (1 / 10 ^ 9) e o
+
+/-- float result vs model result: `None` together, or positions within `tol` degrees on both axes -/
+def Close (tol : ℚ) (f : Option (ℚ × ℚ)) (g : Outcome (Option Pos)) : Prop :=
+  (f = none ↔ g = .ok none) ∧
+  ∀ q, f = some q → ∃ p : Pos, g = .ok (some p) ∧ |q.1 - p.lat| ≤ tol ∧ |q.2 - p.lon| ≤ tol
+
+/-- the facts about the two latitudes that every branch of the assembly uses -/
+theorem lat_facts (R : Rounding fl) (e o : Msg) (he : e.lat < 131072) (ho : o.lat < 131072) {δ : ℚ}
+    (hδ : 1 / 10 ^ 11 ≤ δ) (M : MarginAt δ e o) :
+    fLatE fl e o = gLatE e o ∧ |fLatO fl e o - gLatO e o| ≤ 2 / 10 ^ 12 ∧
+    inLatRange (fLatO fl e o) = inLatRange (gLatO e o) ∧
+    fNl fl (fLatE fl e o) = nl (gLatE e o) ∧ fNl fl (fLatO fl e o) = nl (gLatO e o) := by
+  have hE := fLatE_eq R e o he ho
+  obtain ⟨w1, w2⟩ := lat_odd_wrapped_err R e o he ho
+  have hO : |fLatO fl e o - gLatO e o| ≤ 2 / 10 ^ 12 :=
+    w1 (w2 (lt_of_le_of_lt (by linarith) M.latO_270))
+  have hδ2 : (2 : ℚ) / 10 ^ 12 < δ := lt_of_lt_of_le (by norm_num) hδ
+  have r1 : (fLatO fl e o ≤ 90 ↔ gLatO e o ≤ 90) := le_iff_of_far hO (lt_trans hδ2 M.latO_90)
+  have r2 : (fLatO fl e o ≥ -90 ↔ gLatO e o ≥ -90) :=
+    ge_iff_of_far hO (by rw [sub_neg_eq_add]; exact lt_trans hδ2 M.latO_m90)
+  refine ⟨hE, hO, ?_, ?_, ?_⟩
+  · unfold inLatRange
+    rw [decide_eq_decide.mpr r1]
+    have : decide (-90 ≤ fLatO fl e o) = decide (-90 ≤ gLatO e o) := decide_eq_decide.mpr r2
+    rw [this]
+  · rw [hE]
+    exact fNl_eq_of_far R (ε := 0) (by simp)
+      (nlFar_mono (le_trans (by norm_num) hδ) M.latE_nl)
+  · exact fNl_eq_of_far R hO (nlFar_mono (le_trans (by norm_num) hδ) M.latO_nl)
+
+/-- the assembly for one choice of `latest` (`l = o`: order (even, odd); `l = e`: order (odd, even)) -/
+theorem fGlobalCore_close (R : Rounding fl) (e o l : Msg) (hpe : e.parity = .even) (hpo : o.parity = .odd)
+    (he : e.lat < 131072 ∧ e.lon < 131072) (ho : o.lat < 131072 ∧ o.lon < 131072) (hl : l = e ∨ l = o)
+    {δ : ℚ} (hδ : 1 / 10 ^ 11 ≤ δ) (M : MarginAt δ e o) :
+    Close (1 / 10 ^ 11) (fGlobalCore fl e o l) (globalCore e o l) := by
+  obtain ⟨hE, hO, hR, hN1, hN2⟩ := lat_facts R e o he.1 ho.1 hδ M
+  have hδ1 : (1 : ℚ) / 10 ^ 12 < δ := lt_of_lt_of_le (by norm_num) hδ
+  have hne : ¬ (o = e) := by
+    intro h; rw [h, hpe] at hpo; cases hpo
+  have hN1' : fNl fl (gLatE e o) = nl (gLatE e o) := by rw [hE] at hN1; exact hN1
+  rw [globalCore_eq]
+  unfold fGlobalCore
+  rw [hN1, hN2, hR, hE]
+  by_cases c1 : (!(inLatRange (gLatE e o)) || !(inLatRange (gLatO e o))) = true
+  · rw [if_pos c1, if_pos c1]
+    exact ⟨by simp, fun q hq => by cases hq⟩
+  rw [if_neg c1, if_neg c1]
+  by_cases c2 : nl (gLatE e o) ≠ nl (gLatO e o)
+  · rw [if_pos c2, if_pos c2]
+    exact ⟨by simp, fun q hq => by cases hq⟩
+  rw [if_neg c2, if_neg c2]
+  refine ⟨by simp, fun q hq => ?_⟩
+  have hq' := (Option.some.inj hq).symm
+  refine ⟨_, rfl, ?_⟩
+  rw [hq']
+  rcases hl with rfl | rfl
+  · -- latest = even frame
+    simp only [if_true, hpe]
+    rw [hN1']
+    obtain ⟨n1, n59⟩ := nl_range (gLatE l o)
+    obtain ⟨l1, l2⟩ := lon_wrapped_err R l o (nl (gLatE l o)) 0 l.lon he.2 ho.2 he.2 n1 n59
+    have := l1 (l2 (lt_trans hδ1 M.lonE_180))
+    rw [gLon_eq_gLon0]
+    exact ⟨by simp, le_trans this (by norm_num)⟩
+  · -- latest = odd frame
+    simp only [if_neg hne, hpo, reduceCtorEq, if_false]
+    rw [hN2]
+    obtain ⟨n1, n59⟩ := nl_range (gLatO e l)
+    obtain ⟨l1, l2⟩ := lon_wrapped_err R e l (nl (gLatO e l)) 1 l.lon he.2 ho.2 ho.2 n1 n59
+    have := l1 (l2 (lt_trans hδ1 M.lonO_180))
+    rw [gLon_eq_gLon0]
+    exact ⟨le_trans hO (by norm_num), le_trans this (by norm_num)⟩
+
+/-- **The complete f64 computation of `airborne_position` returns (almost) what the exact model returns.**
+    For every rounding function `fl` satisfying the standard model, every even report `e` and odd report `o`
+    with 17-bit fields, BOTH orders of the pair: under the margin hypothesis the float-level computation returns
+    `None` exactly when the rational model returns `None`, and otherwise the two positions differ by at most
+    `10⁻¹¹` degrees in latitude and in longitude (in fact `2·10⁻¹²`). -/
+theorem airborne_position_f64_close (fl : ℚ → ℚ) (R : Rounding fl) (e o : Msg)
+    (hpe : e.parity = .even) (hpo : o.parity = .odd)
+    (he : e.lat < 131072 ∧ e.lon < 131072) (ho : o.lat < 131072 ∧ o.lon < 131072) (M : Margin e o) :
+    ((fAirbornePosition fl e o = none ↔ airbornePosition e o = .ok none) ∧
+      ∀ q, fAirbornePosition fl e o = some q → ∃ p : Pos, airbornePosition e o = .ok (some p) ∧
+        |q.1 - p.lat| ≤ 1 / 10 ^ 11 ∧ |q.2 - p.lon| ≤ 1 / 10 ^ 11) ∧
+    ((fAirbornePosition fl o e = none ↔ airbornePosition o e = .ok none) ∧
+      ∀ q, fAirbornePosition fl o e = some q → ∃ p : Pos, airbornePosition o e = .ok (some p) ∧
+        |q.1 - p.lat| ≤ 1 / 10 ^ 11 ∧ |q.2 - p.lon| ≤ 1 / 10 ^ 11) := by
+  obtain ⟨a1, a2⟩ := airbornePosition_eo e o hpe hpo
+  obtain ⟨f1, f2⟩ := fAirbornePosition_eo fl e o hpe hpo
+  rw [a1, a2, f1, f2]
+  exact ⟨fGlobalCore_close R e o o hpe hpo he ho (Or.inr rfl) (by norm_num) M,
+    fGlobalCore_close R e o e hpe hpo he ho (Or.inl rfl) (by norm_num) M⟩
+
+/-- **… in IEEE-754 binary64 round-to-nearest-even**, unconditionally in the rounding -/
+theorem airborne_position_ieee_close (e o : Msg)
+    (hpe : e.parity = .even) (hpo : o.parity = .odd)
+    (he : e.lat < 131072 ∧ e.lon < 131072) (ho : o.lat < 131072 ∧ o.lon < 131072) (M : Margin e o) :
+    ((fAirbornePosition IeeeRound.fl64 e o = none ↔ airbornePosition e o = .ok none) ∧
+      ∀ q, fAirbornePosition IeeeRound.fl64 e o = some q → ∃ p : Pos, airbornePosition e o = .ok (some p) ∧
+        |q.1 - p.lat| ≤ 1 / 10 ^ 11 ∧ |q.2 - p.lon| ≤ 1 / 10 ^ 11) ∧
+    ((fAirbornePosition IeeeRound.fl64 o e = none ↔ airbornePosition o e = .ok none) ∧
+      ∀ q, fAirbornePosition IeeeRound.fl64 o e = some q → ∃ p : Pos, airbornePosition o e = .ok (some p) ∧
+        |q.1 - p.lat| ≤ 1 / 10 ^ 11 ∧ |q.2 - p.lon| ≤ 1 / 10 ^ 11) :=
+  airborne_position_f64_close IeeeRound.fl64 IeeeRound.rounding_fl64 e o hpe hpo he ho M
+
 end Rs1090.Proofs.CprFloat
